@@ -350,6 +350,10 @@ func modelLock(ex *Exec, st *State, fn *types.Func, args []*Val, e *ast.CallExpr
 	}
 	trusted(ex, "sync.Mutex provides mutual exclusion; lock invariant of "+key+" assumed at Lock with protected fields havocked, asserted at Unlock")
 	ex.lockOrderCheck(st, key, e.Pos())
+	if ex.locksTaken == nil {
+		ex.locksTaken = map[string]bool{}
+	}
+	ex.locksTaken[key] = true
 	if _, held := st.held[key]; held {
 		ex.oblige(st, "deadlock", key, e.Pos(), tFalse, nil)
 	}
